@@ -35,7 +35,7 @@ def np2tp(dt):
 
 
 class V:
-    __slots__ = ("name", "arrs", "kind", "mag", "clean", "seq", "decl", "nondet", "ddshape", "sym")
+    __slots__ = ("name", "arrs", "kind", "mag", "clean", "seq", "decl", "nondet", "ddshape", "sym", "norank")
 
     def __init__(self, name, arrs, kind, mag=INPUT_MAG, clean=True, seq=False, decl=None, nondet=False, ddshape=False):
         self.name, self.arrs, self.kind = name, arrs, kind
@@ -47,6 +47,9 @@ class V:
         # symbolic mode: the value's shape may depend on a symbolic input dim (an ancestor has one). Being equal under the two
         # generation bindings does not make such a shape static (Slice(x[?x3], 0, 5) has 5 rows for ?=7 and ?=6, 1 row for ?=1)
         self.sym = False
+        # the RANK depends on a symbolic dim (axes-less Squeeze of a value with symbolic dims): the value is terminal (never
+        # picked as an operand) and, as a graph output, is declared with an element type only
+        self.norank = False
 
     @property
     def a(self):
@@ -120,7 +123,7 @@ class Gen:
         return out
 
     def pick(self, pred=None, what="value"):
-        c = [v for v in self.visible() if not v.seq and (pred is None or pred(v))]
+        c = [v for v in self.visible() if not v.seq and not v.norank and (pred is None or pred(v))]
         if not c:
             raise Bail(f"no {what}")
         # prefer recent values so chains form
@@ -834,8 +837,17 @@ def op_dropout(g):
             if r < 0.3:
                 ins.append(g.const(np.array(False)))
     nout = g.rng.choice([1, 2])
-    out = g.add("Dropout", ins, nout=nout, mag=x.mag)
+    attrs = {}
+    if g.opset < 12 and r < 0.6:
+        # the attribute form of the ratio (opsets 7-11); inference semantics: the data output is x whatever the ratio
+        attrs["ratio"] = g.rng.choice([0.0, 0.0, 0.5])
+        g.hit("motif:dropout_ratio_attr")
+    out = g.add("Dropout", ins, nout=nout, mag=x.mag, **attrs)
     g.hit("motif:dropout")
+    if nout == 2 and g.depth == 0 and g.rng.random() < 0.5:
+        # the mask as a graph output that no node consumes (a matched Dropout must then stay)
+        g.force_out.append(out[1])
+        g.hit("motif:dropout_mask_is_output")
     return out
 
 
@@ -970,6 +982,56 @@ def m_cast_cast(g):
     y = g.add("Cast", [x], to=np2tp(t1), mag=x.mag + 1)
     g.hit("motif:cast_cast")
     return g.add("Cast", [y], to=np2tp(t2), mag=x.mag + 1)
+
+
+I8, I16, U8, U16, U32, U64 = np.int8, np.int16, np.uint8, np.uint16, np.uint32, np.uint64
+_CASTS_WIDE = [F32, F64, I64, I32, BOOL, I8, I16, U8, U16, U32, U64]
+
+
+def m_cast_chain(g):
+    """Cast chains of length 2-3 through the whole integer family (signed/unsigned, 8-64 bit).  Only conversions with one
+    defined meaning are emitted: integer -> integer wraps modulo 2^n (numpy, ORT and onnx.reference agree), integer/bool ->
+    float is exact for |v| <= 100, anything -> bool is != 0; float -> integer is only emitted towards a signed type of >= 32
+    bits (in range for the magnitudes generated; float -> unsigned of a negative value and out-of-range float -> narrow
+    integer are undefined).  Intermediates of a type outside the basic set are hidden from later picks (ORT lacks kernels
+    for most operators on them); the chain ends in a basic type."""
+    x = g.pick(lambda v: v.dtype.kind in "fib" and v.clean and v.mag <= 100)
+    k = g.rng.choice([2, 2, 3])
+    types = [g.rng.choice(_CASTS_WIDE) for _ in range(k - 1)] + [g.rng.choice(_CASTS)]
+    if x.dtype.kind in "ib" and g.rng.random() < 0.5:
+        types[0] = g.rng.choice([I8, I16, I32, U8, U16])
+    cls = "free"
+    if x.dtype.kind == "i" and g.rng.random() < 0.35:
+        # signedness families: (narrow) signed -> wider unsigned -> wide (a negative value wraps to a large positive one and
+        # must stay that), and unsigned -> same-width signed -> wide
+        if g.rng.random() < 0.6:
+            sg, un = g.rng.choice([(I8, U16), (I8, U32), (I8, U64), (I16, U32), (I16, U64), (I32, U64), (I8, U8), (I16, U16)])
+            cls = "signed>wider_unsigned"
+        else:
+            sg, un = g.rng.choice([(U8, I8), (U16, I16), (U8, I16), (U16, I32)])
+            cls = "unsigned>signed"
+        # the source is a signed-integer GRAPH INPUT (its values include negatives on every feed), the result a graph output
+        srcs = [v for v in g.inputs if v.dtype.kind == "i" and v.kind == "input"] if g.depth == 0 else []
+        if srcs:
+            x = g.rng.choice(srcs)
+        elif g.depth == 0 and len(g.inputs) < 5:
+            x = g.new_input(dtype=g.rng.choice([I64, I32]), rank=g.rng.choice([1, 2]))
+        types = ([sg] if np.dtype(sg) != x.dtype else []) + [un, g.rng.choice([I64, I32, F32, F64])]
+    cur, hidden = x, []
+    for t in types:
+        kd = np.dtype(t).kind
+        if cur.dtype.kind == "f" and (kd == "u" or (kd == "i" and np.dtype(t).itemsize < 4)):
+            raise Bail("float -> unsigned / narrow integer is undefined for some values")
+        cur = g.add("Cast", [cur], to=np2tp(t), mag=100 if kd != "b" else 1)
+        hidden.append(cur)
+    for v in hidden[:-1]:
+        if v.dtype not in [np.dtype(t) for t in _CASTS] and v in g.vals:
+            g.vals.remove(v)
+    g.hit("motif:cast_chain")
+    g.hit("motif:cast_chain:" + cls)
+    if cls != "free" and g.depth == 0:
+        g.force_out.append(cur)
+    return cur
 
 
 def m_reshape_reshape(g):
@@ -1336,8 +1398,36 @@ def op_function_call(g):
         top = top.outer
     fname = f"F{len(top.functions)}"
     dom = "local.test"
-    form = g.rng.choice(["leaky", "scale_const", "two_nodes"])
-    if form == "leaky":
+    form = g.rng.choice(["leaky", "scale_const", "two_nodes", "reshape_reshape", "clip_clip", "flatten", "min_max"])
+    attr_names = ["alpha"]
+    if form in ("reshape_reshape", "clip_clip", "flatten", "min_max"):
+        # bodies that match a default rewrite rule whose replacement creates an initializer (a function cannot own one):
+        # only reached when functions survive, i.e. rewrite() or optimize(inline=False)
+        attr_names = []
+        g.hit("motif:function_rule_body")
+        g.hit("motif:function_rule_body:" + form)
+        if form == "reshape_reshape":
+            x = g.pick(lambda v: _f32(v) and v.rank >= 1 and v.static() and not (g.symbolic and v.sym) and int(np.prod(v.shape)) > 0)
+            n = int(np.prod(x.shape))
+            nodes = [oh.make_node("Constant", [], ["s1"], value=nph.from_array(np.array([1, n], dtype=np.int64), "s1v")),
+                     oh.make_node("Constant", [], ["s2"], value=nph.from_array(np.array(list(x.shape), dtype=np.int64), "s2v")),
+                     oh.make_node("Reshape", ["a", "s1"], ["r1"]), oh.make_node("Reshape", ["r1", "s2"], ["b"])]
+        elif form == "clip_clip":
+            if g.opset < 11:
+                raise Bail("opset")
+            cs = [("lo1", -1.0), ("hi1", 4.0), ("lo2", 0.5), ("hi2", 2.5)]
+            nodes = [oh.make_node("Constant", [], [k], value=nph.from_array(np.array(c, dtype=F32), k + "v")) for k, c in cs]
+            nodes += [oh.make_node("Clip", ["a", "lo1", "hi1"], ["c1"]), oh.make_node("Clip", ["c1", "lo2", "hi2"], ["b"])]
+        elif form == "min_max":
+            if g.opset < 12:
+                raise Bail("opset")
+            cs = [("lo", -1.0), ("hi", 2.5)]
+            nodes = [oh.make_node("Constant", [], [k], value=nph.from_array(np.array(c, dtype=F32), k + "v")) for k, c in cs]
+            nodes += [oh.make_node("Max", ["a", "lo"], ["c1"]), oh.make_node("Min", ["c1", "hi"], ["b"])]
+        else:
+            x = g.pick(lambda v: _f32(v) and v.rank >= 1)
+            nodes = [oh.make_node("Relu", ["a"], ["t"]), oh.make_node("Flatten", ["t"], ["b"], axis=g.rng.choice([0, 1]))]
+    elif form == "leaky":
         n1 = oh.make_node("LeakyRelu", ["a"], ["b"])
         n1.attribute.append(oh.make_attribute_ref_name_to_attr("alpha", "alpha") if hasattr(oh, "make_attribute_ref_name_to_attr") else _ref_attr("alpha", "alpha", onnx.AttributeProto.FLOAT))
         nodes = [n1]
@@ -1349,10 +1439,11 @@ def op_function_call(g):
         n1 = oh.make_node("Elu", ["a"], ["t"])
         n1.attribute.append(_ref_attr("alpha", "alpha", onnx.AttributeProto.FLOAT))
         nodes = [n1, oh.make_node("Add", ["t", "a"], ["b"])]
-    f = oh.make_function(dom, fname, ["a"], ["b"], nodes, [oh.make_opsetid("", g.opset)], attributes=["alpha"])
+    f = oh.make_function(dom, fname, ["a"], ["b"], nodes, [oh.make_opsetid("", g.opset)], attributes=attr_names)
     top.functions.append(f)
     try:
-        out = g.add(fname, [x], domain=dom, alpha=g.rng.choice([0.5, 2.0, 0.1]), mag=x.mag * 4, kind="call")
+        kw = {"alpha": g.rng.choice([0.5, 2.0, 0.1])} if attr_names else {}
+        out = g.add(fname, [x], domain=dom, mag=x.mag * 4, kind="call", **kw)
     except Bail:
         top.functions.pop()
         raise
@@ -1410,7 +1501,7 @@ def m_sibling_ifs(g):
 
 
 MOTIFS = [
-    (m_noop_arith, 5), (m_cast_cast, 3), (m_reshape_reshape, 3), (m_transpose_transpose, 3), (m_clip_relu, 4),
+    (m_noop_arith, 5), (m_cast_cast, 3), (m_cast_chain, 3), (m_reshape_reshape, 3), (m_transpose_transpose, 3), (m_clip_relu, 4),
     (m_shape_chain, 5), (m_identity_out, 3), (m_const_fold_chain, 5), (m_init_input_chain, 2), (m_cse, 2),
     (m_unsq_unsq, 2), (m_flatten_reshape, 1), (m_random, 2), (m_sibling_ifs, 1),
 ]
@@ -1486,7 +1577,7 @@ def finish(g, n_outputs=None, name="gen"):
     used = set()
     for n in g.nodes:
         used.update(n.input)
-    cands = [v for v in g.vals if v.kind in ("node",)]
+    cands = [v for v in g.vals if v.kind in ("node",) and not v.norank]
     if not cands:
         raise Bail("no outputs")
     leaves = [v for v in cands if v.name not in used]
@@ -1754,13 +1845,106 @@ def s_squeeze_unsqueeze(g):
     return g.add("Squeeze", [y, g.i64([ax])] if g.rng.random() < 0.7 else [y], mag=x.mag)
 
 
+def _one_dim(g):
+    """A one-element (rank-1) or scalar INT64 value that is a dim of some value, in one of the spellings exporters use."""
+    x = g.pick(lambda v: v.rank >= 1)
+    i = g.rng.randrange(x.rank)
+    form = g.rng.choice(["gather1d", "gather0d", "startend", "slice"] if g.opset >= 15 else ["gather1d", "gather0d", "slice"])
+    if form == "startend":
+        return g.add("Shape", [x], start=i, end=i + 1, mag=8), 1
+    s = g.add("Shape", [x], mag=8)
+    if form == "gather1d":
+        return g.add("Gather", [s, g.i64([g.rng.choice([i, i - x.rank])])], axis=0, mag=8), 1
+    if form == "gather0d":
+        return g.add("Gather", [s, g.const(np.array(i, dtype=np.int64))], axis=0, mag=8), 0
+    return g.add("Slice", [s, g.i64([i]), g.i64([i + 1])], mag=8), 1
+
+
+_DIM_OPS = ["Sub", "Sub", "Sub", "Add", "Add", "Mul", "Div", "Neg", "Min", "Max", "Mod"]
+
+
+def s_dim_arith(g):
+    """Integer arithmetic over dims: a chain of 1-2 operators out of Add/Sub/Mul/Div/Neg/Min/Max/Mod over Shape-derived
+    one-element values and small constants, then a CONSUMER that a dim-tracking folder treats specially: Abs (identity only
+    if the value cannot be negative), use as (part of) a shape for ConstantOfShape / Expand / Reshape, or nothing (the value
+    itself is a graph output).  Must hold for EVERY binding: a difference of two dims can be negative, a quotient truncates,
+    a dim can be 0.  (A binding on which the original fails - negative size - is discarded by the check.)"""
+    cur, rc = _one_dim(g)
+    vals = [(cur, rc)]
+    if g.rng.random() < 0.8:
+        vals.append(_one_dim(g))
+    trail = []
+    for _ in range(g.rng.choice([1, 1, 2])):
+        op = g.rng.choice(_DIM_OPS)
+        if op == "Neg":
+            cur = g.add(op, [cur], mag=4096)
+        else:
+            if len(vals) > 1 and g.rng.random() < 0.7:
+                other, ro = vals[g.rng.randrange(1, len(vals))]
+            else:
+                c = g.rng.choice([1, 2, 3, 5]) if op in ("Div", "Mod") else g.rng.choice([0, 1, 2, 3, 5, -1])
+                ro = g.rng.choice([0, 1])
+                other = g.const(np.array([c] if ro else c, dtype=np.int64))
+            if op in ("Div", "Mod") and other.kind != "const":
+                op = "Sub"          # a dim can be bound to 0: no division by a dim
+            ins = [cur, other] if (op in ("Div", "Mod") or g.rng.random() < 0.6) else [other, cur]
+            cur = g.add(op, ins, mag=4096)
+            rc = max(rc, ro)
+        trail.append(op)
+    consumer = g.rng.choice(["abs", "abs", "abs", "none", "none", "shape_cos", "shape_concat_reshape"])
+    if consumer == "abs":
+        cur = g.add("Abs", [cur], mag=4096)
+    elif consumer == "shape_cos":
+        if cur.rank == 0:
+            cur = g.add("Unsqueeze", [cur, g.i64([0])], mag=4096) if g.opset >= 13 else g.add("Unsqueeze", [cur], axes=[0], mag=4096)
+        cur = g.add("ConstantOfShape", [cur], value=nph.from_array(np.array([1], dtype=np.int64)), mag=1)
+    elif consumer == "shape_concat_reshape":
+        x = g.pick(lambda v: v.rank >= 1 and not v.ddshape)
+        if cur.rank == 0:
+            cur = g.add("Unsqueeze", [cur, g.i64([0])], mag=4096) if g.opset >= 13 else g.add("Unsqueeze", [cur], axes=[0], mag=4096)
+        tgt = g.add("Concat", [cur, g.i64([-1])], axis=0, mag=4096)
+        cur = g.add("Reshape", [x, tgt], mag=x.mag)
+    elif g.rng.random() < 0.3 and cur.rank == 1 and g.opset >= 13:
+        cur = g.add("Squeeze", [cur, g.i64([0])], mag=4096)
+    g.hit("motif:dim_arith")
+    for op in set(trail):
+        g.hit("motif:dim_arith:op:" + op)
+    g.hit("motif:dim_arith:consumer:" + consumer)
+    if g.depth == 0:
+        g.force_out.append(cur)
+    return cur
+
+
+def s_squeeze_noaxes_sym(g):
+    """Squeeze WITHOUT axes on a value whose shape has symbolic dims: the identity under the generation bindings (no dim is
+    1), but it removes an axis as soon as a symbol is bound to 1.  The rank of its result is data dependent, so the value is
+    never picked as an operand; what is observed is a rank-stable function of it: Shape (shows the rank), Reshape to 1-D
+    (shows the values), Size."""
+    if g.depth != 0:
+        raise Bail("depth")
+    x = g.pick(lambda v: v.rank >= 1 and v.sym and not v.ddshape)
+    y = g.add("Squeeze", [x], mag=x.mag)
+    y.norank = True
+    how = g.rng.choice(["shape", "shape", "flat", "size"])
+    if how == "shape":
+        r = g.add("Shape", [y], mag=8)
+    elif how == "flat":
+        r = g.add("Reshape", [y, g.i64([-1])], mag=x.mag)
+    else:
+        r = g.add("Size", [y], mag=4096)
+    r.sym = True
+    g.hit("motif:squeeze_noaxes_sym")
+    g.force_out.append(r)
+    return r
+
+
 SYM_MOTIFS = [
     (s_expand_before_binary, 8), (s_reshape_by_shape, 8), (s_slice_by_shape, 5), (s_scatter_all, 3), (s_matmul_reshape, 2),
-    (s_size_range, 2), (s_squeeze_unsqueeze, 2), (s_reshape_roundtrip_repeated, 2), (s_scatter_all_shape_start, 2), (s_expand_as_anonymous, 2), (m_shape_chain, 8), (op_expand, 5), (op_reshape, 4), (op_shape, 3),
+    (s_size_range, 2), (s_squeeze_unsqueeze, 2), (s_dim_arith, 9), (s_squeeze_noaxes_sym, 2), (s_reshape_roundtrip_repeated, 2), (s_scatter_all_shape_start, 2), (s_expand_as_anonymous, 2), (m_shape_chain, 8), (op_expand, 5), (op_reshape, 4), (op_shape, 3),
     (op_constant_of_shape, 2), (m_noop_arith, 3), (m_identity_out, 2), (op_gather, 2), (op_concat, 2), (op_slice, 2),
 ]
 SYM_TABLE = [(f, w) for f, w in BASIC_OPS if f not in (op_conv, op_pool, op_sequence, op_topk, op_nonzero)] + SYM_MOTIFS + \
-    [(op_if, 1), (m_reshape_reshape, 2), (m_transpose_transpose, 2), (m_cast_cast, 1), (m_const_fold_chain, 2)]
+    [(op_if, 1), (m_reshape_reshape, 2), (m_transpose_transpose, 2), (m_cast_cast, 1), (m_cast_chain, 1), (m_const_fold_chain, 2)]
 
 
 def symbols_of(info):
